@@ -37,7 +37,7 @@ func init() {
 			"environment values = unique canaries (a 24-character random core wrapped in YAML/JSON-significant decorations: `: `, ` #`, quotes, newlines, `${`, leading/trailing blanks, flow/anchor/tag indicators, digits only), " +
 			"objects referenced or not by 1..3 services in short or long syntax, defined in the main file, an override file, an included file, or declared in the main file and re-pointed to another variable by the override file; " +
 			"loaded with the real loader under 7 option sets; the project, then 11 derivations of it (WithProfiles, WithServicesEnabled, WithoutUnnecessaryResources, WithSelectedServices, WithServicesDisabled, WithImagesResolved, " +
-			"WithServicesEnvironmentResolved, WithServicesLabelsResolved, WithServicesTransform, and derivations taken after a WithSecretContent rendering) are each rendered YAML and JSON, default and WithSecretContent. " +
+			"WithServicesEnvironmentResolved, WithServicesLabelsResolved, WithServicesTransform, and derivations taken after a WithSecretContent rendering) are each rendered YAML and JSON, default and WithSecretContent; for a third of the cases plain renderings (of the project and of an independent copy) also run in three goroutines while a fourth renders with secret content, and must equal the quiet rendering byte for byte. " +
 			"A case is non-trivial when the load succeeded and at least one environment-sourced secret carries its canary in Content; distinct = distinct case inputs.",
 		Assumptions: []string{
 			"a leak of a canary contains its 24-character alphanumeric core verbatim (escaping cannot alter it); transformed leaks (base64, hashing) are not searched",
